@@ -417,7 +417,7 @@ func (w *world) run() {
 			}
 			if c.Bool(1, 40, "net.badorig") {
 				bm := m
-				bm.orig = []int{-1, w.n, 255, 1<<31 - 1}[c.Choose(4, "badorig")]
+				bm.orig = []int{-1, w.n, 255, 1<<31 - 1, 256 + i, 512 + i, -256 + i}[c.Choose(7, "badorig")]
 				bm.label = "transport:origin-out-of-range"
 				out.Faults["transport.origin_out_of_range"]++
 				pending = append(pending, bm)
